@@ -331,6 +331,10 @@ def to_vtl_json(
     _components.extend(structure.components.attributes)
 
     for c in _components:
+        if c.dtype not in VTL_DTYPES_MAPPING:
+            raise InputValidationException(
+                code="0-1-3-9", comp_name=c.id, dtype=getattr(c.dtype, "value", c.dtype)
+            )
         _type = VTL_DTYPES_MAPPING[c.dtype]
         _nullability = c.role != SDMX_Role.DIMENSION
         _role = VTL_ROLE_MAPPING[c.role]
